@@ -37,6 +37,10 @@ func c02Opts(thorough bool) opCaseOpts {
 }
 
 func checkC02(c *core.Ctx) {
+	defer sweepC02(c)
+	defer soakC02(c)
+	defer sweepConcatN(c, true)
+	defer gridC02(c)
 	if c.Shard == 0 && c.Only == "" {
 		if f := refSelftest(); f > 0 {
 			c.Broken("reference model selftest failed (%d)", f)
